@@ -101,13 +101,19 @@ package file
 //@     requires len(j.tail) <= fpos - ls && (len(j.tail) == fpos - ls ==> seqeq(j.tail, content, ls))
 //@     requires len(j.tail) < fpos - ls ==> w.maxEventSize != 0 && len(j.tail) >= w.maxEventSize && (!w.cutOffEventByLimit ==> len(j.tail) > w.maxEventSize)
 //@     requires w.maxEventSize != 0 && w.cutOffEventByLimit ==> seqeq(j.tail[:min(len(j.tail), w.maxEventSize)], content, ls)
+//@     requires !sameblock(j.tail, readBuf) && !sameblock(j.tail, accumBuf)
 //@     preserves worker
 //@   callee continueJob(j)
 //@     requires j.curOffset == fpos && 0 <= ls && ls <= fpos && nochr(content[ls:fpos], '\n')
 //@     requires len(j.tail) <= fpos - ls && (len(j.tail) == fpos - ls ==> seqeq(j.tail, content, ls))
 //@     requires len(j.tail) < fpos - ls ==> w.maxEventSize != 0 && len(j.tail) >= w.maxEventSize && (!w.cutOffEventByLimit ==> len(j.tail) > w.maxEventSize)
 //@     requires w.maxEventSize != 0 && w.cutOffEventByLimit ==> seqeq(j.tail[:min(len(j.tail), w.maxEventSize)], content, ls)
+//@     requires !sameblock(j.tail, readBuf) && !sameblock(j.tail, accumBuf)
 //@     preserves worker
+
+// The last requires of processEOF / continueJob is the hand-back half of the
+// channel invariant assumed at the receive: a job's held-back tail never shares
+// memory with the worker's scratch buffers, which the next job overwrites.
 
 // ---------------------------------------------------------------------------
 // C07: offsets file.
